@@ -42,7 +42,7 @@ def make(kind: str, repo: str, dst: str) -> None:
             open(f, 'w').write(s)
     elif kind == 'combined':
         tmp = out + '_1'
-        subprocess.run([PY, os.path.join(HERE, 'twin_transforms.py'), src, tmp, 'invert-if,flip-eq,else-return,extract-var'], check=True, capture_output=True)
+        subprocess.run([PY, os.path.join(HERE, 'twin_transforms.py'), src, tmp, 'invert-if,flip-eq,else-return,extract-var,expand-aug,to-keyword'], check=True, capture_output=True)
         subprocess.run([PY, os.path.join(HERE, 'alpha_rename.py'), tmp, out, 'ALL', '_q'], check=True, capture_output=True)
         shutil.rmtree(tmp)
     else:
@@ -53,7 +53,7 @@ def main() -> int:
     ap = argparse.ArgumentParser()
     ap.add_argument('--repo', default='/repo')
     ap.add_argument('--props', default='')
-    ap.add_argument('--kinds', default='alpha,private,invert-if,flip-eq,else-return,add-else,extract-var,inline-var,combined')
+    ap.add_argument('--kinds', default='alpha,private,invert-if,flip-eq,else-return,add-else,extract-var,inline-var,to-keyword,to-positional,expand-aug,combined')
     ap.add_argument('--suite', action='store_true')
     a = ap.parse_args()
     props = [p for p in a.props.split(',') if p] or sorted(os.path.basename(f)[:-3].upper() for f in glob.glob(os.path.join(ROOT, 'kfv', 'rules', 'c[0-9][0-9].py')))
